@@ -19,6 +19,7 @@ RULE = (
     "variants; (iv) all byte strings of length <=2, all 2-byte headers followed by 0/1/64 zero bytes, the 16 Windows blobs truncated at every length. Oracle: return | needs-network | "
     "ValueError (and subclasses) | NotImplementedError | ASN.1 NotEnougData | InvalidTag | InvalidUnwrap, inside both budgets. state = one (key material, input) execution under budget; transition = one decoder/derivation run. "
     "Violations are grouped by (exception type, raising function)."
+    ' Also every blob with its SID text replaced by ~150 strings whose numbers sit at the edges of their widths (2^32, 2^48, 15 / 16 sub-authorities, leading zeros, other radices, junk).'
 )
 ASSUME = ["step budget counts Python line events inside dpapi_ng only; time inside C primitives is not measured", "KBKDFHMAC.derive is the only KDF entry (call counter)"]
 BOUND = {"quick": "5 base blobs for (i)-(iii); all strings <=2 bytes; Windows blobs truncated at every length", "thorough": "33 base blobs"}
